@@ -59,22 +59,52 @@ def record(ns, w, ov):
         # every other triple uses ONE object for all its generators, and iterates `firstlast` twice (a generator that
         # keeps state between uses shows up as different windows the second time); the others use fresh objects
         same = (ns + w + ov) % 2 == 0
-        new = (lambda: wg) if same else (lambda: WindowGenerator(ns, w, ov))
-        if same:
-            first_pass = [(int(a), int(b)) for a, b in wg.firstlast]
-        fl = []
-        for first, last in wg.firstlast:
-            fl.append((int(first), int(last), int(wg.iw)))
-        if same and first_pass != [(a, b) for a, b, _ in fl]:
-            fl = [(-1, -1, -1)] * len(fl)          # the second iteration differs from the first: windows are not reproducible
-        if ov % 2 == 0:
-            val = [tuple(int(x) for x in v) for v in new().firstlast_valid]
-        else:
-            val = [(f, l, -1, -1) for f, l, _ in fl]
+        # one triple in four: the generators of ONE object are consumed in lock-step (zip-like use), with a complete tscale()
+        # pass while they are all suspended: the generators of an object must not share position state
+        interleaved = (ns + w + ov) % 4 == 2
         ramp = scipy.signal.windows.hann((ov + 1) * 2 + 1, sym=True)[1:ov + 1]
-        spl = [(int(f), int(l), _rle(a, ramp), len(a)) for f, l, a in new().firstlast_splicing]
-        ts = new().tscale(fs=1)
-        sl = list(new().slice)
+        if interleaved:
+            its = {"fl": iter(wg.firstlast), "val": iter(wg.firstlast_valid) if ov % 2 == 0 else None,
+                   "spl": iter(wg.firstlast_splicing), "sl": iter(wg.slice)}
+            got = {"fl": [], "val": [], "spl": [], "sl": []}
+            ts, k = None, 0
+            while True:
+                progressed = False
+                for name in ("fl", "val", "spl", "sl"):
+                    if its[name] is None:
+                        continue
+                    try:
+                        item = next(its[name])
+                    except StopIteration:
+                        its[name] = None
+                        continue
+                    got[name].append(item)
+                    progressed = True
+                if k == 0:
+                    ts = wg.tscale(fs=1)
+                k += 1
+                if not progressed or k > 4 * (ns + 2):
+                    break
+            fl = [(int(a), int(b), i) for i, (a, b) in enumerate(got["fl"])]      # iw is shared by design: not observed here
+            val = ([tuple(int(x) for x in v) for v in got["val"]] if ov % 2 == 0 else [(f, l, -1, -1) for f, l, _ in fl])
+            spl = [(int(f), int(l), _rle(a, ramp), len(a)) for f, l, a in got["spl"]]
+            sl = got["sl"]
+        else:
+            new = (lambda: wg) if same else (lambda: WindowGenerator(ns, w, ov))
+            if same:
+                first_pass = [(int(a), int(b)) for a, b in wg.firstlast]
+            fl = []
+            for first, last in wg.firstlast:
+                fl.append((int(first), int(last), int(wg.iw)))
+            if same and first_pass != [(a, b) for a, b, _ in fl]:
+                fl = [(-1, -1, -1)] * len(fl)          # the second iteration differs from the first: windows are not reproducible
+            if ov % 2 == 0:
+                val = [tuple(int(x) for x in v) for v in new().firstlast_valid]
+            else:
+                val = [(f, l, -1, -1) for f, l, _ in fl]
+            spl = [(int(f), int(l), _rle(a, ramp), len(a)) for f, l, a in new().firstlast_splicing]
+            ts = new().tscale(fs=1)
+            sl = list(new().slice)
         rec["nslices"] = len(sl)
         for k, (f, l, iw) in enumerate(fl):
             fv, lv = (-99, -99)
